@@ -679,6 +679,10 @@ class Tr:
                     if nloops == stop_at_loop:
                         break
                 out.append(st)
+            # declarations between the last kept loop and the stopping loop belong to what follows (e.g. the
+            # coordinate handed to the source's lookup), not to the index computation
+            while out and out[-1] and out[-1]['kind'] == 'DeclStmt' and any(x and x['kind'] == 'ForStmt' for x in out):
+                out.pop()
             stmts = out
             cont = 'Ok idx'
         else:
